@@ -1492,7 +1492,9 @@ class ValueString(Value):
         return self.value == other.value
 
     def __lt__(self, other):
-        return str(self) < str(other)
+        if not isinstance(other, ValueString):
+            return str(self) < str(other)
+        return self.value < other.value
 
     def __repr__(self):
         result = self.value
